@@ -104,8 +104,33 @@ class BindOp(Op):
         return cases
 
 
+class SetAttributesOp(Op):
+    """any sequence of DetachableElement.setAttribute calls (plain and prefixed names sharing a local name, repeated names) against the dict
+    model of Proofs/AttrUnique.v: order of first appearance, last value wins, no name lost"""
+    name = "B.set_attributes"
+    imports = ["PX.Model.Bind", "PX.Proofs.AttrUnique"]
+    fn = "fun calls => flat_map (fun kv => fst kv ++ [61%N] ++ snd kv ++ [1%N]) (set_attributes calls)"
+    in_ty = "list (list N * list N)"
+    n_quick, n_thorough = 200, 2000
+
+    def generate(self, rng, n):
+        from pyxform.utils import DetachableElement
+        names = ["type", "ex:type", "a:type", "nodeset", "esri:nodeset", "ref", "x:ref", "required", "jr:constraintMsg", "odk:length", "id", "ex:id", "custom", "é"]
+        vals = ["string", "T", "/data/q", "yes", "a < b & \"c\"", "", " spaced "]
+        cases = []
+        for _ in range(n):
+            calls = [(rng.choice(names), rng.choice(vals)) for _ in range(rng.randint(0, 7))]
+            el = DetachableElement("bind")
+            for k, v in calls:
+                el.setAttribute(k, v)
+            exp = "".join(f"{k}={a.value}\x01" for k, a in (el._attrs or {}).items())
+            cases.append({"coq": clist([f"({cstr(k)}, {cstr(v)})" for k, v in calls], "(list N * list N)"), "expected": exp, "desc": {"calls": calls},
+                          "class": f"calls={len(calls)} names={len({k for k, _ in calls})}", "nontrivial": len({k.split(':')[-1] for k, _ in calls}) < len({k for k, _ in calls})})
+        return cases
+
+
 def ops(tier):
-    return [HeaderOp(), BindOp()]
+    return [HeaderOp(), BindOp(), SetAttributesOp()]
 
 
 # ---- direct oracle: bind map of real convert() output against the sheet ---------------------------------
